@@ -25,7 +25,7 @@ def tla(v):
 
 
 CONST_NAMES = ["NC", "CType", "CSw", "Names", "Kinds", "CreateFlags", "ValuesFlags", "CommitFlags", "ObjSeqs", "ValPats", "Restricts",
-               "MaxDists", "MaxRestricts", "Queries", "Xfs", "RmTypes", "BadDepths", "Ops", "NStripes", "Stripe", "SimLen"]
+               "MaxDists", "MaxRestricts", "Queries", "Xfs", "RmTypes", "BadDepths", "Ops", "MaxPhase", "PhaseQueries", "NStripes", "Stripe", "SimLen"]
 
 
 def gen_module(name, c):
@@ -112,7 +112,7 @@ def base_consts(fam):
             "ObjSeqs": {(1, 2)}, "ValPats": {1},
             "Restricts": {TlaRec(id=i, alive=frozenset(a)) for i, a in fam.alive.items()},
             "MaxDists": 1, "MaxRestricts": 1, "Queries": set(), "Xfs": set(), "RmTypes": set(), "BadDepths": set(),
-            "Ops": set(), "NStripes": 1, "Stripe": 0, "SimLen": 0}
+            "Ops": set(), "MaxPhase": 0, "PhaseQueries": set(), "NStripes": 1, "Stripe": 0, "SimLen": 0}
 
 
 class TlaRec(dict):
@@ -142,8 +142,15 @@ def configs(fams, thorough, seed):
     # K: every kind word x create flags x names on one homogeneous and one mixed pair: validation, HETEROGENEOUS bit, by-name
     c = base_consts(st)
     c.update(Names={"-", "a"}, Kinds=set(range(128)) | {256 + 6}, CreateFlags={0, 1}, ObjSeqs={(1, 2), (1, 3)}, Ops={"q", "xml"},
-             Queries={("name", "a", 0, 0, 2), ("name", "b", 0, 0, 1), ("kind", "", 0, 0, -1), ("kind", "", 63, 0, 1)}, Restricts=set())
+             Queries={("name", "a", 0, 0, 2), ("name", "b", 0, 0, 1), ("kind", "", 0, 0, -1), ("kind", "", 63, 0, 1)}, Restricts=set(),
+             MaxPhase=1, PhaseQueries={("name", "a", 0, 0, 2), ("kind", "", 63, 0, 1)})
     out.append(("kinds", st, c, "bfs", 1 if thorough else 2, 0, 0))
+    # A: argument validation of add_values / add_commit, every edge: all arrays of 0..3 pointers over NULL and three
+    # candidates (NULL in any position, duplicates), both values flags, valid and invalid commit flags
+    c = base_consts(st)
+    aseqs = {tuple(p) for n in range(0, 4) for p in itertools.product([0, 1, 2, 3], repeat=n)} | {(1, 2, 3, 4), (0, 1, 2, 3), (1, 2, 3, 0)}
+    c.update(ValuesFlags={0, 1}, CommitFlags={0, 1, 2, 3, 4, 8}, ObjSeqs=aseqs, Restricts=set())
+    out.append(("args", st, c, "bfs", 1, 0, 0))
     # O: every object array (order, size 0..4, NULL pointers, duplicates) x add flags, then the objects disappear
     c = base_consts(st)
     seqs = perms_upto([1, 2, 3, 4], 4) | {(0, 1), (1, 0), (0, 1, 2), (1, 0, 3), (1, 2, 0), (0, 0), (0, 0, 1), (0,), (1, 1), (1, 3, 1), (3, 3, 4)}
@@ -151,18 +158,21 @@ def configs(fams, thorough, seed):
              Ops={"restrict", "dup", "xml", "shm", "q", "rmtype", "rmdepth"}, RmTypes={"PU", "Core"}, BadDepths={99},
              Queries={("type", "PU", 0, 0, 1), ("type", "NUMANode", 0, 0, 2), ("type", "Core", 8, 0, 0), ("type", "Package", 0, 0, 1),
                       ("depth", "t:PU", 0, 0, -1), ("depth", "t:NUMANode", 4, 0, 1), ("depth", "99", 0, 0, 1), ("depth", "-99", 0, 0, 0),
-                      ("kind", "", 0, 1, 1), ("name", "a", 0, 1, 1)})
-    out.append(("objs", st, c, "bfs", 10 if thorough else 72, 0, 0))
+                      ("kind", "", 0, 1, 1), ("name", "a", 0, 1, 1)},
+             MaxPhase=1, PhaseQueries={("type", "PU", 0, 0, 1), ("depth", "t:NUMANode", 4, 0, 1), ("name", "a", 0, 1, 1)})
+    out.append(("objs", st, c, "bfs", 10 if thorough else 150, 0, 0))
     # S: several structures: filters, array sizes, removals
     c = base_consts(st)
-    c.update(Names={"-", "a"} if thorough else {"-", "a", "b"}, Kinds={6, 9, 33}, ObjSeqs={(1, 2), (3, 4), (2, 1, 3)},
+    c.update(Names={"-", "a"}, Kinds={6, 9, 33}, ObjSeqs={(1, 2), (3, 4), (2, 1, 3)},
              MaxDists=3 if thorough else 2, MaxRestricts=1,
              Ops={"q", "remove", "rmtype", "rmdepth", "rr", "rr2", "restrict", "dup", "xml", "shm"}, RmTypes={"PU", "NUMANode", "Package"}, BadDepths={99, -1},
              Queries=kind_queries(range(0, 48) if thorough else [0, 1, 2, 3, 4, 8, 12, 32, 36, 44, 5, 10, 35, 16, 22, 47], [-1, 1] if thorough else [-1, 0, 1, 2])
              | {("name", n, 0, 0, k) for n in ("a", "b", "c") for k in (-1, 0, 1)}
              | {("type", t, k, 0, n) for t in ("PU", "NUMANode", "Core") for k in (0, 4, 9) for n in (-1, 1)}
-             | {("depth", d, 0, 0, 1) for d in ("t:PU", "t:Core", "7")})
-    out.append(("store", st, c, "bfs", 600 if thorough else 700, 0, 0))
+             | {("depth", d, 0, 0, 1) for d in ("t:PU", "t:Core", "7")},
+             MaxPhase=1, PhaseQueries={("kind", "", 0, 0, -1), ("kind", "", 5, 0, 1), ("kind", "", 10, 0, -1), ("name", "a", 0, 0, -1), ("name", "b", 0, 0, 1),
+                                       ("type", "PU", 0, 0, -1), ("type", "NUMANode", 9, 0, 1), ("depth", "t:PU", 0, 0, 1)})
+    out.append(("store", st, c, "bfs", 1500 if thorough else 600, 0, 0))
     # X: transforms on copies: all positions of 0..2 switch ports among up to 4 objects, NULLed objects, bad arguments
     c = base_consts(sw)
     xseq = set()
@@ -175,18 +185,18 @@ def configs(fams, thorough, seed):
     xseq |= {(5, 6), (5, 1), (1, 5), (1, 5, 6), (5, 1, 6), (6, 5, 2), (1, 2, 3), (2, 1)}
     xfs = {(t, m, 0, 0) for t in (0, 1, 2, 3) for m in (0, 1, 2, 4, 6, 9, 14, 15)} | {(t, 0, f, a) for t in (0, 2) for f, a in ((1, 0), (0, 1))} | {(4, 0, 0, 0), (7, 1, 0, 0)}
     c.update(Kinds={9, 10, 6}, ObjSeqs=xseq, ValPats={1, 3, 4, 6}, Ops={"xf"}, Xfs=xfs, Restricts=set())
-    out.append(("xf", sw, c, "bfs", 6 if thorough else 40, 0, 0))
+    out.append(("xf", sw, c, "bfs", 2 if thorough else 10, 0, 0))
     # G: grouping at commit: homogeneous sets of 3-4 objects, groupable and not, all flag words, then the usual followers
     c = base_consts(gr)
     c.update(Kinds={6, 33, 9}, CommitFlags={0, 1, 2, 3}, ValPats={1, 2, 5},
              ObjSeqs={(1, 2, 3, 4), (1, 3, 2, 4), (1, 2, 3), (5, 6, 7, 8), (6, 5, 8), (9, 10, 11, 12), (9, 11, 10, 12), (1, 2, 5, 6), (9, 10)},
-             MaxDists=2 if thorough else 1, Ops={"restrict", "dup", "xml"} if thorough else {"xml"})
-    out.append(("group", gr, c, "bfs", 4 if thorough else 3, 0, 0))
+             MaxDists=2 if thorough else 1, MaxPhase=1, Ops={"restrict", "dup", "xml", "remove", "rr"} if thorough else {"xml", "remove"})
+    out.append(("group", gr, c, "bfs", 100 if thorough else 2, 0, 0))
     # simulation: seven candidates of four types, random values, every family of actions interleaved
     for i in range(4 if thorough else 1):
         c = base_consts(six)
         c.update(Names={"-", "a", "b"}, Kinds={6, 9, 33, 5, 10, 34, 4, 2, 0, 22, 70, 3}, CreateFlags={0, 0, 1}, ValuesFlags={0}, CommitFlags={0, 0, 2, 4},
-                 ObjSeqs=set(random.Random(seed * 77 + i).sample(sorted(perms_upto([1, 2, 3, 4, 5, 6, 7], 4) | {(0, 1, 2), (1, 0), (7, 7, 1)}), 60)),
+                 ObjSeqs=set(random.Random(seed * 77 + i).sample(sorted(perms_upto([1, 2, 3, 4, 5, 6, 7], 4)), 60)) | {(0, 1, 2), (1, 0), (0, 3), (7, 7, 1), (2,)},
                  ValPats={0, 1}, MaxDists=4, MaxRestricts=3,
                  Ops={"q", "remove", "rmtype", "rmdepth", "rr", "rr2", "restrict", "dup", "xml", "shm", "xf"}, RmTypes={"PU", "NUMANode", "Core", "Package"}, BadDepths={99},
                  Queries=kind_queries([0, 1, 2, 4, 8, 32, 6, 9, 45, 3], [-1, 1]) | {("name", "a", 0, 0, -1), ("name", "b", 0, 0, 1)}
@@ -327,6 +337,31 @@ def bundled_behaviours(ctx, exe, rng, thorough):
     return behs
 
 
+def record_parallel(ctx, exe, behs, tracefile, nproc=8):
+    """record chunks of the behaviour list in parallel; the chunk traces are concatenated with the behaviour
+    numbers shifted to global ones (the recorder numbers behaviours from 0 within its file)"""
+    import concurrent.futures as cf
+    n = len(behs)
+    size = max(1, (n + nproc - 1) // nproc)
+    chunks = [(i, behs[i:i + size]) for i in range(0, n, size)]
+
+    def one(ch):
+        off, bl = ch
+        p = ctx.path("chunk-%d.beh" % off)
+        open(p, "w").write("".join(bl))
+        ctx.record(exe, p, p + ".ndjson")
+        return off, p + ".ndjson"
+
+    with cf.ThreadPoolExecutor(max_workers=nproc) as ex:
+        parts = list(ex.map(one, chunks))
+    pat = re.compile(r'"beh":(-?\d+)')
+    with open(tracefile, "w") as fo:
+        for off, p in parts:
+            for line in open(p, errors="replace"):
+                fo.write(pat.sub(lambda m: '"beh":%d' % (int(m.group(1)) + off), line, count=1) if off else line)
+            os.remove(p)
+
+
 # ---------------------------------------------------------------- main
 def run(ctx, replay=None):
     ctx.build_lib()
@@ -354,22 +389,37 @@ def run(ctx, replay=None):
         probe_family(ctx, exe, f)
 
     behs, per_cfg = [], {}
+    jobs = []
     for tag, fam, c, mode, nstripes, num, depth in configs(fams, thorough, ctx.seed):
         stripes = [ctx.seed % nstripes]
         if thorough and mode == "bfs":
             stripes = sorted({ctx.seed % nstripes, (ctx.seed + 1) % nstripes})
-        n0 = len(behs)
         for stripe in stripes:
-            c["NStripes"], c["Stripe"] = nstripes, stripe
-            mod = "MC_Distances_gen"
-            out, st = ctx.tlc_mc(mod, gen_cfg(c, mode == "bfs"), tag="%s_%d" % (tag, stripe), workers=8,
-                                 simulate=("num=%d" % num) if mode == "sim" else None, depth=depth or None,
-                                 extra_modules=[(mod + ".tla", gen_module(mod, c))], timeout=1500)
-            if st["error"] or (mode == "bfs" and st["rc"] != 0):
-                raise vlib.Infra("model check of MC_Distances (%s) failed (model-level, not a violation): %s\n%s" % (tag, st["error"], out[-2500:]))
-            for h in vlib.tlc_printed(out, "EDGE" if mode == "bfs" else "SIM"):
-                behs.append(beh_text(h, fam))
-        per_cfg[tag] = len(behs) - n0
+            cc = dict(c)
+            cc["NStripes"], cc["Stripe"] = nstripes, stripe
+            jobs.append((tag, fam, cc, mode, stripe, num, depth))
+
+    def run_job(job):
+        tag, fam, c, mode, stripe, num, depth = job
+        mod = "MC_Distances_gen"
+        out, st = ctx.tlc_mc(mod, gen_cfg(c, mode == "bfs"), tag="%s_%d" % (tag, stripe), workers=4,
+                             simulate=("num=%d" % num) if mode == "sim" else None, depth=depth or None,
+                             extra_modules=[(mod + ".tla", gen_module(mod, c))], timeout=2400)
+        if st["error"] or (mode == "bfs" and st["rc"] != 0):
+            raise vlib.Infra("model check of MC_Distances (%s) failed (model-level, not a violation): %s\n%s" % (tag, st["error"], out[-2500:]))
+        return [beh_text(h, fam) for h in vlib.tlc_printed(out, "EDGE" if mode == "bfs" else "SIM")]
+
+    import concurrent.futures as cf
+    with cf.ThreadPoolExecutor(max_workers=4) as ex:
+        results = list(ex.map(run_job, jobs))
+    for job, res in zip(jobs, results):
+        tag = job[0]
+        cap = 12000 if thorough else 1200          # guard against a stripe that came out too fat
+        if len(res) > cap:
+            res = random.Random(ctx.seed + len(behs)).sample(res, cap)
+            ctx.notes.append("configuration %s: sampled %d of the emitted behaviours" % (tag, cap))
+        behs += res
+        per_cfg[tag] = per_cfg.get(tag, 0) + len(res)
     nb = len(behs)
     behs += bundled_behaviours(ctx, exe, rng, thorough)
     per_cfg["bundled"] = len(behs) - nb
@@ -381,7 +431,7 @@ def run(ctx, replay=None):
     tf = ctx.path("trace.ndjson")
     import time
     t0 = time.time()
-    ctx.record(exe, bf, tf)
+    record_parallel(ctx, exe, behs, tf)
     t1 = time.time()
     rejs = ctx.validate("TraceDistances", tf)
     vlib.log("C13: recording %.0fs, validation %.0fs, trace %.1f MB" % (t1 - t0, time.time() - t1, os.path.getsize(tf) / 1e6))
